@@ -103,7 +103,18 @@ impl Scenario for C14 {
                 history.push((cs.choose("ack", 2) == 1, tag, cs.choose("multiple", 2) == 1, k));
             }
         }
-        let mut sm = ConfirmSmoother::with_expected_delivery_tag(start);
+        // a channel's first delivery tag is 1: all three ways of building a smoother for it must agree
+        let mut sm = match if start == 1 { cs.choose("constructor", 3) } else { 0 } {
+            1 => {
+                rep.count("c14.built_with_new", 1);
+                ConfirmSmoother::new()
+            }
+            2 => {
+                rep.count("c14.built_with_default", 1);
+                ConfirmSmoother::default()
+            }
+            _ => ConfirmSmoother::with_expected_delivery_tag(start),
+        };
         let mut model = Model { expected: start, confirmed: BTreeMap::new() };
         let mut all_out: Vec<(bool, u64)> = Vec::new();
         let mut covered_upto = 0u64; // highest tag covered by a multiple
